@@ -80,11 +80,12 @@ int __wrap_pthread_mutex_unlock(pthread_mutex_t* m) {
 namespace {
 
 // Forward search from a start page above every cached page with no match never
-// returns (DESIGN.md section 8 row 4, property C17 owns the fix).  While this
-// is 1 the viewer only starts forward searches at page 0x100 and the hang is
-// not provoked; set to 0 (or delete) once search.c is repaired.
+// returned (DESIGN.md section 8 row 4; property C17 owned the fix, committed to
+// /repo as 0d8639e / 260a0e3).  With 1 the viewer only starts forward searches at
+// page 0x100 so that the hang is not provoked; 0 since the repair is in the tree
+// (3000 runs without steering are clean).  Delete the constant when convenient.
 #ifndef AVOID_SEARCH_WRAP_HANG
-#define AVOID_SEARCH_WRAP_HANG 1
+#define AVOID_SEARCH_WRAP_HANG 0
 #endif
 
 // A fetched vbi_page keeps raw pointers into the cache (pg->drcs_clut, pg->drcs[]) without holding a reference
@@ -1189,8 +1190,10 @@ struct C01 : World {
       case VBI_EVENT_NETWORK: case VBI_EVENT_NETWORK_ID: c.log("ev%d net %d '%.*s' cni %x %x %x", which, ev->type, 40, (const char*)ev->ev.network.name, ev->ev.network.cni_vps, ev->ev.network.cni_8301, ev->ev.network.cni_8302); break;
       case VBI_EVENT_TRIGGER: { vbi_link* l = ev->ev.trigger;
         // an application can only use these as C strings: an unterminated array makes every use an out-of-bounds read
-        if (strnlen((const char*)l->url, sizeof l->url) >= sizeof l->url || strnlen((const char*)l->name, sizeof l->name) >= sizeof l->name || strnlen((const char*)l->script, sizeof l->script) >= sizeof l->script)
+        if (strnlen((const char*)l->url, sizeof l->url) >= sizeof l->url || strnlen((const char*)l->name, sizeof l->name) >= sizeof l->name ||
+            strnlen((const char*)l->script, sizeof l->script) >= sizeof l->script) {
           c.fail("oracle:trigger-unterminated", "VBI_EVENT_TRIGGER delivered a vbi_link whose url/name/script array holds no terminating NUL");
+        }
         int ltype; memcpy(&ltype, &l->type, sizeof ltype);  // may be garbage: do not load it as an enum
         c.log("ev%d trigger type %d url %zu name %zu script %zu", which, ltype, strnlen((const char*)l->url, 256), strnlen((const char*)l->name, 80), strnlen((const char*)l->script, 256)); c.count("trigger_events"); break; }
       case VBI_EVENT_ASPECT: c.log("ev%d aspect %d-%d", which, ev->ev.aspect.first_line, ev->ev.aspect.last_line); break;
